@@ -185,11 +185,13 @@ CHECKS = {
  },
  "C09": {
   "category": "proof",
-  "text": "Proved on VFile.v: the link split loses no page, one link per BOS-delimited segment, lengths/initial offsets non-negative, total = sum of links. "
+  "text": "Proved on VFile.v: the link split loses no page, one link per BOS-delimited segment, lengths/initial offsets non-negative, total = sum of links; for one link at full rate, reading any intact run of packets and then the "
+          "end-of-stream packet delivers exactly the samples up to the position the last granule position names and leaves the reported position at the link's end "
+          "(Sync_lemmas.v: blockin_eos, link_read_to_end). "
           "Per run: 1..12-link files (zero-sample, single-page links, differing rates/channels) - link table compared with an independent decode and the model; "
           "the linear read must deliver every link completely, in order, bit-identical, without error returns.",
   "note": VF_NOTE,
-  "technique": "Coq proof (link table structure) + correspondence of link table and linear read vs independent packet-level decode",
+  "technique": "Coq proof (link table structure; whole-link read accounting) + correspondence of link table and linear read vs independent packet-level decode",
  },
  "C10": {
   "category": "proof",
